@@ -1,6 +1,7 @@
 /-
 Hand-written executable model of libavoid's geometry predicates (cola/libavoid/geometry.{h,cpp})
-over exact rationals. Core Lean only.
+over exact rationals. Core Lean only. The loop-free ones are also *generated* from the C++ by
+tools/cpp2lean (AdaptaVerif.Gen.Geometry) and proved equal to these in Lemmas/GeometryBridge.lean.
 -/
 namespace AdaptaVerif.Model.Geometry
 
@@ -17,6 +18,32 @@ def vecDir (a b c : Pt) (maybeZero : Rat := 0) : Int :=
   let ar := area2 a b c
   if ar < -maybeZero then -1 else if ar > maybeZero then 1 else 0
 
+/-- `std::numeric_limits<double>::epsilon()` -/
+def eps : Rat := 1 / 4503599627370496
+
+def absR (r : Rat) : Rat := if r < 0 then -r else r
+
+/-- strictly between (the code's `(a<c && c<b) || (b<c && c<a)`) -/
+def strictBetween (a b c : Rat) : Bool := (a < c && c < b) || (b < c && c < a)
+
+/-- `inBetween(a, b, c)`; precondition (asserted in the code): a b c collinear within eps -/
+def inBetween (a b c : Pt) : Bool :=
+  if absR (a.x - b.x) > eps then strictBetween a.x b.x c.x else strictBetween a.y b.y c.y
+
+/-- `colinear(a, b, c, tolerance)` -/
+def colinear (a b c : Pt) (tolerance : Rat := 0) : Bool :=
+  if a = b then true
+  else if a.x = b.x then a.x = c.x
+  else if a.y = b.y then a.y = c.y
+  else decide (vecDir a b c tolerance = 0)
+
+/-- `pointOnLine(a, b, c, tolerance)`: c strictly inside segment ab (NB: the comment in the
+    C++ says "closed segment"; the code is strict and the model follows the code) -/
+def pointOnLine (a b c : Pt) (tolerance : Rat := 0) : Bool :=
+  if a.x = b.x then a.x = c.x && strictBetween a.y b.y c.y
+  else if a.y = b.y then a.y = c.y && strictBetween a.x b.x c.x
+  else decide (vecDir a b c tolerance = 0) && inBetween a b c
+
 /-- `segmentIntersect(a, b, c, d)` -/
 def segmentIntersect (a b c d : Pt) : Bool :=
   let ab_c := vecDir a b c
@@ -26,5 +53,114 @@ def segmentIntersect (a b c d : Pt) : Bool :=
   let cd_a := vecDir c d a
   let cd_b := vecDir c d b
   (ab_c * ab_d < 0) && (cd_a * cd_b < 0)
+
+/-- `segmentShapeIntersect(e1, e2, s1, s2, seenIntersectionAtEndpoint)` returning
+    (result, new value of the in/out flag) -/
+def segmentShapeIntersect (e1 e2 s1 s2 : Pt) (seen : Bool) : Bool × Bool :=
+  if segmentIntersect e1 e2 s1 s2 then (true, seen)
+  else if ((s2 = e1 || pointOnLine s1 s2 e1) && vecDir s1 s2 e2 != 0) ||
+          ((s2 = e2 || pointOnLine s1 s2 e2) && vecDir s1 s2 e1 != 0) then
+    if seen then (true, seen) else (false, true)
+  else (false, seen)
+
+/-- `inValidRegion(IgnoreRegions, a0, a1, a2, b)` -/
+def inValidRegion (ignoreRegions : Bool) (a0 a1 a2 b : Pt) : Bool :=
+  let rSide := vecDir b a0 a1
+  let sSide := vecDir b a1 a2
+  let rOutOn := rSide ≤ 0
+  let sOutOn := sSide ≤ 0
+  let rOut := rSide < 0
+  let sOut := sSide < 0
+  if vecDir a0 a1 a2 > 0 then
+    if ignoreRegions then (rOutOn && !sOut) || (!rOut && sOutOn) else (rOutOn || sOutOn)
+  else
+    if ignoreRegions then false else (rOutOn && sOutOn)
+
+/-- `cornerSide(c1, c2, c3, p)` -/
+def cornerSide (c1 c2 c3 p : Pt) : Int :=
+  let s123 := vecDir c1 c2 c3
+  let s12p := vecDir c1 c2 p
+  let s23p := vecDir c2 c3 p
+  if s123 == 1 then (if s12p ≥ 0 && s23p ≥ 0 then 1 else -1)
+  else if s123 == -1 then (if s12p ≤ 0 && s23p ≤ 0 then -1 else 1)
+  else s12p
+
+/-- cyclic predecessor list: `prevs [p0,…,pn-1] = [pn-1, p0, …, pn-2]` (index `(i+n-1) % n`) -/
+def prevs (ps : List Pt) : List Pt :=
+  match ps.getLast? with
+  | some l => l :: ps.dropLast
+  | none => []
+
+/-- edges (P[prev i], P[i]) in loop order -/
+def edges (ps : List Pt) : List (Pt × Pt) := (prevs ps).zip ps
+
+/-- `inPoly(poly, q, countBorder)` — convex polygons, vertices clockwise in screen coordinates,
+    i.e. the interior is on the non-negative `vecDir` side of every edge -/
+def inPoly (poly : List Pt) (q : Pt) (countBorder : Bool := true) : Bool :=
+  let dirs := (edges poly).map (fun e => vecDir e.1 e.2 q)
+  if dirs.any (· == -1) then false
+  else if !countBorder && dirs.any (· == 0) then false
+  else true
+
+/-- x-coordinate where edge (p1 → p) crosses the x-axis (as computed in `inPolyGen`) -/
+def crossX (p p1 : Pt) : Rat := (p.x * p1.y - p1.x * p.y) / (p1.y - p.y)
+
+/-- `inPolyGen(poly, q)` — crossing-number test, boundary counts as inside -/
+def inPolyGen (poly : List Pt) (q : Pt) : Bool :=
+  let P := poly.map (fun p => (⟨p.x - q.x, p.y - q.y⟩ : Pt))
+  if P.any (fun p => p.x = 0 && p.y = 0) then true else
+  let es := edges P      -- (P[i1], P[i])
+  let r := es.countP (fun e => (decide (e.2.y > 0) != decide (e.1.y > 0)) && crossX e.2 e.1 > 0)
+  let l := es.countP (fun e => (decide (e.2.y < 0) != decide (e.1.y < 0)) && crossX e.2 e.1 < 0)
+  if r % 2 != l % 2 then true else r % 2 == 1
+
+def DONT_INTERSECT : Int := 0
+def DO_INTERSECT : Int := 1
+def PARALLEL : Int := 3
+
+/-- bounding-box rejection test of `segmentIntersectPoint` in one coordinate:
+    segment [p1,p2] against [q1,q2] -/
+def boxReject (p1 p2 q1 q2 : Rat) : Bool :=
+  let A := p2 - p1
+  let B := q1 - q2
+  let (hi, lo) := if A < 0 then (p1, p2) else (p2, p1)
+  if B > 0 then (hi < q2 || q1 < lo) else (hi < q1 || q2 < lo)
+
+/-- the part of `segmentIntersectPoint` after the two bounding-box tests -/
+def sipCore (a1 a2 b1 b2 : Pt) : Int × Rat × Rat :=
+  let Ax := a2.x - a1.x
+  let Bx := b1.x - b2.x
+  let Ay := a2.y - a1.y
+  let By := b1.y - b2.y
+  let Cx := a1.x - b1.x
+  let Cy := a1.y - b1.y
+  let d := By * Cx - Bx * Cy
+  let f := Ay * Bx - Ax * By
+  if (if f > 0 then (d < 0 || d > f) else (d > 0 || d < f)) then (DONT_INTERSECT, 0, 0) else
+  let e := Ax * Cy - Ay * Cx
+  if (if f > 0 then (e < 0 || e > f) else (e > 0 || e < f)) then (DONT_INTERSECT, 0, 0) else
+  if f = 0 then (PARALLEL, 0, 0) else
+  (DO_INTERSECT, a1.x + d * Ax / f, a1.y + d * Ay / f)
+
+/-- `segmentIntersectPoint(a1, a2, b1, b2, &x, &y)`: (code, x, y); x,y are 0 when not set -/
+def segmentIntersectPoint (a1 a2 b1 b2 : Pt) : Int × Rat × Rat :=
+  if boxReject a1.x a2.x b1.x b2.x then (DONT_INTERSECT, 0, 0) else
+  if boxReject a1.y a2.y b1.y b2.y then (DONT_INTERSECT, 0, 0) else
+  sipCore a1 a2 b1 b2
+
+/-- `rayIntersectPoint` -/
+def rayIntersectPoint (a1 a2 b1 b2 : Pt) : Int × Rat × Rat :=
+  let Ay := a2.y - a1.y
+  let By := b1.y - b2.y
+  let Ax := a2.x - a1.x
+  let Bx := b1.x - b2.x
+  let Cx := a1.x - b1.x
+  let Cy := a1.y - b1.y
+  let d := By * Cx - Bx * Cy
+  let f := Ay * Bx - Ax * By
+  if f = 0 then (PARALLEL, 0, 0) else
+  (DO_INTERSECT, a1.x + d * Ax / f, a1.y + d * Ay / f)
+
+def manhattanDist (a b : Pt) : Rat := absR (a.x - b.x) + absR (a.y - b.y)
 
 end AdaptaVerif.Model.Geometry
